@@ -1,3 +1,4 @@
+import TabulaModel.Lemmas.HtmlGrid
 import TabulaModel.Model.HtmlSpec
 /-!
 Helper lemmas for C19 (Props/C19Text.lean): text up to white space (`squeeze`),
@@ -240,16 +241,8 @@ theorem parseTableRows_texts (isHeader : Bool) (kids : List Dom) :
       rw [List.filterMap_cons]
       simp only [sectionCellNodes]
       by_cases h : tag = T.tr
-      · simp only [h, if_true]
-        by_cases he : parseTableRow isHeader kk = []
-        · simp only [he, if_true]
-          have := parseTableRow_texts isHeader kk
-          rw [he] at this
-          simp only [List.map_nil] at this
-          rw [List.map_append, ← this]
-          simpa using ih
-        · simp only [he, if_false, List.flatten_cons, List.map_append]
-          rw [parseTableRow_texts, ih]
+      · simp only [h, if_true, List.flatten_cons, List.map_append]
+        rw [parseTableRow_texts, ih]
       · simp only [h, if_false, List.nil_append]
         exact ih
 
@@ -276,16 +269,8 @@ theorem tableSections_texts (kids : List Dom) :
             · exact h2 h
           simp only [h1, h2, if_false, false_or]
           by_cases h4 : tag = T.tr
-          · simp only [h4, if_true]
-            by_cases he : parseTableRow false kk = []
-            · simp only [he, if_true]
-              have := parseTableRow_texts false kk
-              rw [he] at this
-              simp only [List.map_nil] at this
-              rw [List.map_append, ← this]
-              simpa using ih
-            · simp only [he, if_false, List.flatten_cons, List.map_append]
-              rw [parseTableRow_texts, ih]
+          · simp only [h4, if_true, List.flatten_cons, List.map_append]
+            rw [parseTableRow_texts, ih]
           · simp only [h4, if_false, List.nil_append]
             exact ih
 
@@ -293,11 +278,12 @@ theorem tableSections_texts (kids : List Dom) :
 `getTextContent` gives it; rows without cells contribute nothing -/
 theorem parseTable_texts (kids : List Dom) :
     (parseTable kids).1.flatten.map (·.text) = (tableCellNodes kids).map cellText := by
-  have : (parseTable kids).1 = (tableSections kids).1 := by
+  have : (parseTable kids).1 = dropEmptyRows (tableSections kids).1 := by
     unfold parseTable
     cases tableSections kids with
     | mk rows hd => rfl
-  rw [this]; exact tableSections_texts kids
+  rw [this, dropEmptyRows, HtmlGrid.dropEmptyRows, HtmlGrid.dropEmptyRowsFrom_flatten]
+  exact tableSections_texts kids
 
 theorem squeeze_cellTexts (cs : List Dom) :
     squeeze ((cs.map cellText).flatten) = squeeze (cs.flatMap tnFlat) := by
